@@ -849,7 +849,7 @@ func (e *Engine) callSitePositions(fn *ssa.Function, site string) []token.Pos {
 				continue
 			}
 			seen[p] = true
-			if strings.Contains(e.exprTextAt(p, "call"), sub) {
+			if siteMatches(e.exprTextAt(p, "call"), sub) {
 				ps = append(ps, int(p))
 			}
 		}
